@@ -17,6 +17,7 @@ ASSUMPTIONS = V.ASSUMPTIONS
 
 
 def run(ctx, model_ok):
+    V.record_ast(ctx)
     V.small_functions(ctx, model_ok)
     V.unit(ctx, "C10", model_ok)
     V.e2e(ctx, "C10")
